@@ -3917,6 +3917,10 @@ def run_job_case(case):
         o = observe_cfg(self_, holder["s"])
         o["kind"], o["arg_ms"], o["arg_sh"] = "samples", max_samples, max_shots
         calls.append(o)
+        if max_shots is None and (max_samples is None or max_samples >= 10 ** 7):
+            # nothing bounds this request (the wrappers refuse to start one): do not wait for 1e8 samples
+            o["unbounded"] = True
+            raise DidNotReturn("unbounded sampling request")
         res = orig_samples(self_, max_samples, max_shots, progress_callback)
         o["n"] = len(res["results"])
         return res
@@ -4003,6 +4007,11 @@ def judge_job(chk, case, count=True):
             chk.branch("job-primitive-choice-only")
         return None
     # ---- DIRECT ORACLE on the real run (no model): the limits are honoured whatever the route
+    for o in obs["calls"]:
+        if o.get("unbounded") and (S is not None or case["args"][:1] not in ([], [None])):
+            return ("violation", "job:limits-not-honoured",
+                    f"Sampler(max_shots_per_call={S}).{method}(*{case['args']}, **{case['kw']}): the processor is asked "
+                    f"for {o['arg_ms']} samples with max_shots={o['arg_sh']}", replay)
     if "raise" not in obs:
         user_ms = case["args"][0] if case["args"] else (case["kw"]["ms"][0] if case["kw"]["ms"] else None)
         user_sh = S if S is not None else (case["kw"]["sh"][0] if case["kw"]["sh"] else None)
@@ -4180,8 +4189,43 @@ def shrink_job(chk, case, sig):
     return cur
 
 
+def job_primitive_choice(chk):
+    """_get_primitive_converter for every method and every ordered list of offered commands (exhaustive)."""
+    import perceval as pcvl
+    from perceval.algorithm import Sampler
+    from perceval.components.processor import Processor
+    cmds = ["probs", "sample_count", "samples"]
+    lists = [list(p) for r in range(4) for p in itertools.permutations(cmds, r)]
+    p = pcvl.Processor("SLOS", pcvl.Circuit(2) // pcvl.BS())
+    s = Sampler(p)
+    cfg = {"ms": None, "sh": None, "filter": 0, "input": 0, "noise": 0, "params": []}
+    for avail in lists:
+        for method in cmds:
+            with mock.patch.object(Processor, "available_commands", new_callable=mock.PropertyMock,
+                                   return_value=list(avail)):
+                prim, conv = s._get_primitive_converter(method)
+            replay = {"part": "job-choice"}
+            chk.case(("J0", tuple(avail), method), nontrivial=len(avail) >= 2)
+            # direct oracle: an offered command, the method itself when offered, and the converter that goes with it
+            name = None if conv is None else conv.__name__
+            ok = (prim is None and not avail) or (prim in avail and (method not in avail or prim == method)
+                                                   and name == (None if prim == method else f"{prim}_to_{method}"))
+            if not ok:
+                chk.fail("violation", "job:primitive-choice", f"{method} among {avail}: primitive {prim}, converter "
+                                                              f"{name}", replay)
+                return
+            rep = chk.lean.ask({"op": "job", "avail": avail, "method": method, "cfg": cfg, "its": [], "args": [],
+                                "kw": {"ms": [], "sh": [], "other": False}})
+            if rep.get("prim") != prim:
+                chk.fail("broken", "job:model-vs-code", f"primitive for {method} among {avail}: code {prim}, model "
+                                                        f"{rep.get('prim')}", replay)
+                return
+    chk.branch("job-primitive-choice-exhaustive")
+
+
 def job_part(chk, n):
     found = {}
+    job_primitive_choice(chk)
     for _ in range(n):
         case = gen_job_case(chk.rng)
         res = judge_job(chk, case)
@@ -4356,6 +4400,8 @@ def replay_one(chk, rp):
         chk.case(("G", "replay"), nontrivial=True)
         if res is not None:
             chk.fail(*res)
+    elif part == "job-choice":
+        job_primitive_choice(chk)
     elif part == "job":
         res = judge_job(chk, rp["case"])
         chk.case(("J", "replay"), nontrivial=True)
@@ -4451,6 +4497,7 @@ def run(chk: core.Check):
         "job-sample_count-via-probs", "job-probs-via-samples", "job-probs-via-probs", "job-iterated",
         "job-iterated-conversion-own-limits", "job-keyword-max_samples", "job-surplus-positional",
         "job-conversion-under-max_shots_per_call", "job-no-primitive", "job-primitive-choice-only",
+        "job-primitive-choice-exhaustive",
         "job-raise:RuntimeError", "job-raise:IndexError", "job-raise:AttributeError",
     ]
     chk.lean = core.LeanDriver("C09")
@@ -4493,7 +4540,7 @@ def run(chk: core.Check):
     timed("F exact replay of recorded draws", replay_part, chk, chk.pick(400, 3000))
     timed("G Sampler iterations", iterations_part, chk, chk.pick(250, 1500))
     timed("H one Source over a history of requests", source_history_part, chk, chk.pick(60, 400))
-    timed("J Sampler job glue (primitive, parameters, converter)", job_part, chk, chk.pick(220, 2500))
+    timed("J Sampler job glue (primitive, parameters, converter)", job_part, chk, chk.pick(150, 2500))
     # C
     timed("C limits", limits_part, chk, chk.pick(6, 24))
     timed("C2 Sampler on strong simulation", strong_part, chk, chk.pick(16, 60), chk.pick(60, 120))
